@@ -15,8 +15,8 @@ oracle on the real code: relative residual of op(A) x = b, shape and dtype of x.
 Input classes that were defects of the pinned tree and are REPAIRED in /repo (f06340d, 7a37cb6, 156f3c9) are generated and
 compared like any other: SolverSparseLU real matrix + complex rhs; CG with a zero rhs column / zero vector, with a column
 that converges exactly before the others, with a real x0 for a complex system (witnesses corpus/defects/c05_*.py).
-Still EXCLUDED (open defect, corpus/defects/c05_cg_sor_ilu_complex_rhs.py): CG with the SOR or ILU preconditioner, real sparse
-matrix and complex right-hand side (TypeError from SuperLU inside the preconditioner).
+CG with the SOR / ILU preconditioner, real sparse matrix and complex right-hand side (repaired: `_lu_solve`, witness
+corpus/defects/c05_cg_sor_ilu_complex_rhs.py) is generated in the reuse stream like every other class.
   reuse  : ONE solver object per history, 2-5 update(A_i) calls (sub-classes alternate, sizes may change), solves with all
            trans modes after EACH update: residual oracle against the CURRENT matrix + model comparison from the factors
            read after each update (SolverDenseCholesky: whole update history sent to the model state machine).
@@ -761,9 +761,7 @@ def run_reuse(ctx):
                 with warnings.catch_warnings():
                     warnings.simplefilter("ignore")
                     s.update(sps.csc_matrix(A))
-                # excluded defect class (corpus/defects/c05_cg_sor_ilu_complex_rhs.py): real matrix + complex rhs with SOR / ILU
-                solves_after_update("cg_" + pk, "cg", s, A, "hpd", list(hist), ui, model=False,
-                                    cplx_rhs_ok=pk not in ("sor", "ilu"), mats=list(mats))
+                solves_after_update("cg_" + pk, "cg", s, A, "hpd", list(hist), ui, model=False, mats=list(mats))
         # ---- the solver returned by auto_determine_solver ------------------------------------------
         for kind in ("hpd", "hindef", "csym", "gen", "diag"):
             for sparse in (False, True):
@@ -816,6 +814,15 @@ def run_mg(ctx):
         meta.append(("interp", (nx, ny, nz, ndof), R))
         if not np.allclose(R.sum(axis=1), 1.0):
             ctx.oracle_fail("interpolation rows do not sum to 1", {"grid": [nx, ny, nz, ndof]})
+        # mg_interp_linear on the real matrix: a tri-affine function of the node position is reproduced
+        idx_f = np.asarray(dom.get_node_indices()).astype(float)
+        idx_c = 2.0 * np.asarray(mg.sub_domain.get_node_indices()).astype(float)
+        coef = [(rng.randint(-3, 3), rng.randint(-3, 3)) for _ in range(idx_f.shape[0])]
+        gf = np.prod([a_ + b_ * idx_f[ax] for ax, (a_, b_) in enumerate(coef)], axis=0)
+        gc = np.prod([a_ + b_ * idx_c[ax] for ax, (a_, b_) in enumerate(coef)], axis=0)
+        if not np.allclose(R @ np.repeat(gc, ndof), np.repeat(gf, ndof)):
+            ctx.oracle_fail("interpolation does not reproduce a multilinear function", {"grid": [nx, ny, nz, ndof], "coef": coef})
+        ctx.branch("interp_linear_oracle")
     # CG + MG on the 2x2 grid (9 nodes)
     ncg = 3 if ctx.quick else 10
     for _ in range(ncg):
@@ -1004,8 +1011,105 @@ def run_auto(ctx):
 
 
 # ------------------------------------------------------------------------------------------------
+def self_test(ctx):
+    """thorough tier: flip ONE number of a model request; the comparison used by the streams must notice.
+    A request whose perturbation goes unnoticed is recorded as a broken correspondence (stream "self-test")."""
+    from ..common import close
+    rng = ctx.rng
+    S, it, _ = _sol()
+    reqs, meta = [], []
+
+    def flip(M):
+        """add 1 to one entry of an encoded matrix (real: number, complex: [re, im])"""
+        M = [list(r) for r in M]
+        i, j = rng.randrange(len(M)), rng.randrange(len(M[0]))
+        v = M[i][j]
+        if isinstance(v, list):
+            M[i][j] = [q(fr(v[0]) + 1), v[1]]
+        else:
+            M[i][j] = q(fr(v) + 1)
+        return M
+
+    for solver, kind in (("diag", "diag"), ("qr", "gen"), ("lu", "gen"), ("chol", "hpd"), ("chol", "hposdiag"),
+                         ("ldl", "hindef"), ("ldl", "csym"), ("sparselu", "gen")):
+        for trans in "NTH":
+            cplx = kind == "csym" or rng.random() < 0.5
+            A = gen_matrix(rng, kind, 3, cplx)
+            b = gen_rhs(rng, 3, "nk", cplx)
+            s, req, note = build_direct(ctx, kind, solver, A, b, trans, cplx)
+            if note != "ok" or req is None:
+                continue
+            with warnings.catch_warnings():
+                warnings.simplefilter("ignore")
+                x = s.solve(b.copy(), trans=trans)
+            bad = dict(req)
+            key = rng.choice([k_ for k_ in ("B", "q", "r", "l", "u", "U", "d") if isinstance(req.get(k_), list)])
+            bad[key] = flip(req[key])
+            for variant, rq in (("true", req), ("flipped:" + key, bad)):
+                reqs.append(rq)
+                meta.append((f"direct:{solver}:{trans}", variant, x, cplx, float(np.linalg.cond(A))))
+    # CG iterate and orth
+    for cplx in (False, True):
+        A = spd(rng, 4, cplx)
+        b = nz_cols(rint(rng, 4, 2, -3, 3, cplx)).astype(A.dtype)
+        with warnings.catch_warnings():
+            warnings.simplefilter("ignore")
+            x = it.CG(A, maxit=1).solve(b.copy())
+        Bq, k = enc_b(b, cplx)
+        req = {"m": "c05.cg", "cplx": cplx, "n": 4, "k": k, "A": enc(A, cplx), "b": Bq, "trans": "N", "x0": None,
+               "precond": {"kind": "id"}, "tol": q(Fraction(1, 10 ** 7)), "maxit": 1, "restart": 50,
+               "zero_rtol": q(Fraction(1, 10 ** 15))}
+        bad = dict(req)
+        key = rng.choice(["A", "b"])
+        bad[key] = flip(req[key])
+        if key == "A":   # keep the matrix Hermitian is not needed for one CG step; any change must show
+            pass
+        for variant, rq in (("true", req), ("flipped:" + key, bad)):
+            reqs.append(rq)
+            meta.append(("cg", variant, x, cplx, 1.0))
+        u = nz_cols(rint(rng, 4, 3, -3, 3, cplx)).astype(A.dtype)
+        if np.linalg.matrix_rank(u) < 3:
+            continue
+        v = it.orth(u.copy(), normalize=True)
+        req = {"m": "c05.orth", "cplx": cplx, "n": 4, "k": 3, "u": enc(u, cplx), "normalize": True,
+               "zero_rtol": q(Fraction(1, 10 ** 15))}
+        bad = dict(req)
+        bad["u"] = flip(req["u"])
+        for variant, rq in (("true", req), ("flipped:u", bad)):
+            reqs.append(rq)
+            meta.append(("orth", variant, v, cplx, 1.0))
+    outs = ctx.model(reqs)
+    for (name, variant, ximpl, cplx, cond), o in zip(meta, outs):
+        agree = False
+        if "ok" in o:
+            if name == "cg":
+                xm = dec(o["ok"]["trace"][0], cplx) if o["ok"]["trace"] else dec(o["ok"]["x"], cplx)
+            elif name == "orth":
+                xm = dec(o["ok"]["v"], cplx) if o["ok"]["ncols"] else np.zeros((4, 0))
+            else:
+                xm = dec(o["ok"]["x"], cplx)
+            xi = np.asarray(ximpl)
+            if xi.size == xm.size:
+                sc = max(1.0, float(np.max(np.abs(xm), initial=0.0))) * max(cond, 1.0)
+                agree, _ = close(xi.reshape(xm.shape).flatten().tolist(), xm.flatten().tolist(),
+                                 1e-9 * max(cond, 1.0), 1e-10, sc)
+        if variant == "true":
+            if agree:
+                ctx.branch("selftest_true_request_agrees")
+            else:
+                ctx.disagree("self-test", {"stream": name, "variant": variant}, "impl", o, "unperturbed request disagrees")
+        else:
+            if agree:
+                ctx.disagree("self-test", {"stream": name, "variant": variant}, "impl", "model agreed",
+                             "a flipped number in the model request went unnoticed")
+            else:
+                ctx.branch("selftest_flip_noticed:" + name.split(":")[0])
+
+
 def correspondence(ctx):
     np.seterr(all="ignore")
+    if not ctx.quick:
+        self_test(ctx)
     run_direct(ctx)
     run_reuse(ctx)
     run_auto(ctx)
